@@ -33,7 +33,10 @@ def c06(A):
                 pass
             for p in frames:
                 if p["t"] == "CONNACK" and p.get("rc") == 0 and c.clean and e["i"] == c.i_connack_ok:
-                    exch[c.a].clear()           # clean session: the broker's half-finished exchanges are gone too
+                    # clean session: the broker's half-finished exchanges are gone.  What the client
+                    # does with a half-received message is left open (0 or 1 late delivery).
+                    for st in exch[c.a].values():
+                        st["orphan"] = True
                 if not (up and subcap):
                     # not entitled to anything; also feeds the unprompted check (nothing prompted)
                     continue
@@ -47,8 +50,9 @@ def c06(A):
                         prompts["PUBACK"].append(p["id"])
                     elif q == 2:
                         prompts["PUBREC"].append(p["id"])
-                        st = exch[c.a].setdefault(p["id"], {"delivered": 0, "pkt": p, "conn": c.idx})
-                        st["pkt"] = st.get("pkt") or p
+                        st = exch[c.a].get(p["id"])
+                        if st is None or st.get("orphan"):
+                            st = exch[c.a][p["id"]] = {"delivered": 0, "pkt": p, "conn": c.idx}
                 elif p["t"] == "PUBREL":
                     judged = True
                     prompts["PUBCOMP"].append(p["id"])
@@ -102,7 +106,7 @@ def c06(A):
         # a PUBREL closes its exchange: by now it must have been delivered exactly once
         for ident in prompts["PUBCOMP"]:
             st = exch[a].pop(ident, None)
-            if st is not None and not tainted:
+            if st is not None and not tainted and not st.get("orphan"):
                 o.dec("q2_exchanges")
                 if st["delivered"] == 0:
                     o.bad("qos2-not-delivered", "QoS 2 exchange (id %r) completed by PUBREL without delivery" % (ident,), sev)
